@@ -295,7 +295,7 @@ DefSInt(op, a) ==
     [] op = "SIntMod"    -> <<WRem(a[1], a[2])>>
     [] op = "SIntQuo"    -> <<WQuo(a[1], a[2])>>
     [] op = "SIntRem"    -> <<WRem(a[1], a[2])>>
-    [] op = "SIntDivide" -> <<WQuo(a[1], a[2]), WRem(a[1], a[2])>>
+    [] op = "SIntDivide" -> LET qr == QuoRem(a[1], a[2]) IN <<qr.q, qr.r>>
     [] op = "SIntGcd"    -> <<WGcd(a[1], a[2], SIntW)>>
     [] op = "SIntPlusMod"  -> <<QuoRem(Add(a[1], a[2]), a[3]).r>>
     [] op = "SIntMinusMod" -> <<QuoRem(Sub(a[1], a[2]), a[3]).r>>    \* C remainder of the exact difference
@@ -337,7 +337,7 @@ DefBInt(op, a) ==
     [] op = "BIntMod"    -> <<QuoRem(a[1], a[2]).r>>
     [] op = "BIntQuo"    -> <<QuoRem(a[1], a[2]).q>>
     [] op = "BIntRem"    -> <<QuoRem(a[1], a[2]).r>>
-    [] op = "BIntDivide" -> <<QuoRem(a[1], a[2]).q, QuoRem(a[1], a[2]).r>>
+    [] op = "BIntDivide" -> LET qr == QuoRem(a[1], a[2]) IN <<qr.q, qr.r>>
     [] op = "BIntGcd"    -> <<Gcd(a[1], a[2])>>
     [] op = "BIntSIPower" -> <<PowNat(a[1], ToInt(a[2]))>>
     [] op = "BIntBIPower" -> <<PowNat(a[1], ToInt(a[2]))>>
